@@ -986,6 +986,9 @@ def _exact_cover_no_rotation(blocks, R, C):
     return rec(0, frozenset())
 
 
+from contracts.bin_pack import split_loop_inv as _binpack_split_inv  # noqa: E402
+
+
 def run_binpack_step(ctx, NI, S, cover):
     """BinPack RandomGenerator: the body of the splitting loop, `_split_space_into_sub_spaces`, on SYMBOLIC item spaces and mask: it preserves 'items inside the
     container and pairwise disjoint' (so generate_solution is feasible, by induction over the loop) and replaces exactly one item by slabs that exactly cover it
@@ -997,19 +1000,7 @@ def run_binpack_step(ctx, NI, S, cover):
     X, Y, Z = gen.container_dims
     AX, LIM, F6 = ("x", "y", "z"), {"x": X, "y": Y, "z": Z}, ("x1", "x2", "y1", "y2", "z1", "z2")
 
-    def inv(sp, m):
-        out = {}
-        for a in AX:
-            lo, hi = getattr(sp, a + "1"), getattr(sp, a + "2")
-            out["items_non_empty_inside_container_" + a] = ~m | ((lo >= 0) & (lo < hi) & (hi <= LIM[a]))
-        dis = []
-        for i in range(NI):
-            for j in range(i + 1, NI):
-                sep = _any([(getattr(sp, a + "2")[i] <= getattr(sp, a + "1")[j]) | (getattr(sp, a + "2")[j] <= getattr(sp, a + "1")[i]) for a in AX])
-                dis.append(~(m[i] & m[j]) | sep)
-        if dis:
-            out["items_pairwise_disjoint"] = jnp.stack(dis)
-        return out
+    inv = _binpack_split_inv(NI, gen.container_dims)
 
     def req(key, sp, m):
         return {**inv(sp, m), "at_least_one_item": jnp.any(m), "loop_condition_holds": jnp.sum(m) < NI - S + 1}
@@ -1263,6 +1254,8 @@ def run_mmst_bounded(ctx, cfgs, nkeys):
 def tasks(tier):
     q = tier == "quick"
     out = {}
+    from jxv import envdriver
+    out.update(envdriver.genpost_tasks("C10", tier))
     for n in ((3, 4) if q else (3, 4, 5, 8)):
         out[f"TSP.UniformGenerator[{n}]"] = (run_tsp, {"n": n})
     for (n, cap, d) in (((3, 10, 5), (4, 7, 7)) if q else ((3, 10, 5), (4, 7, 7), (8, 30, 10))):
@@ -1307,7 +1300,7 @@ def tasks(tier):
     sizes = ((3, 3), (5, 7), (7, 5), (4, 6), (6, 4), (2, 2), (2, 5), (10, 10)) if q else ((3, 3), (5, 7), (7, 5), (4, 6), (6, 4), (2, 2), (2, 5), (5, 2), (10, 10), (9, 12), (15, 15), (16, 11))
     out["maze_utils.connectivity[bounded]"] = (run_maze_connectivity, {"sizes": sizes, "nkeys": 200 if q else 1000})
     # ---- 4. FlatPack tiling; finite generators
-    for (nr, nc) in (((1, 2), (2, 2)) if q else ((1, 1), (1, 2), (2, 1), (2, 2), (2, 3))):
+    for (nr, nc) in (((1, 2), (2, 1), (2, 2)) if q else ((1, 1), (1, 2), (2, 1), (2, 2), (2, 3))):
         out[f"FlatPack.RandomFlatPackGenerator[{nr}x{nc}]"] = (run_flatpack, {"nr": nr, "nc": nc})
     out["FlatPack.RandomFlatPackGenerator[bounded]"] = (run_flatpack_bounded, {"sizes": ((2, 2), (2, 3)) if q else ((1, 3), (2, 2), (2, 3), (3, 3)), "nkeys": 40 if q else 200})
     out["Sudoku.generators"] = (run_sudoku, {})
